@@ -79,6 +79,9 @@ def showOut : Model.Out → String
   | .panic => "panic"
 
 def handleLegacy (api : Bool) (tx : Tx) (idx : Nat) (ht : UInt32) (script : Bytes) : String :=
+  -- outside the property's domain: not an input / unparsed script handed to the unexported function
+  if idx ≥ tx.ins.length then "out-of-domain" else
+  if !api && !parses script then "out-of-domain" else
   -- Spec where it is defined (script parses, idx is an input); the model of the code otherwise
   match Spec.legacySigHash sha script ht tx idx with
   | some d => listToHex d
@@ -91,9 +94,10 @@ def handleWit (api : Bool) (tx : Tx) (spent : List TxOut) (idx : Nat) (ht : UInt
   let m := mkFetchMap tx spent
   let fetch := fetchOf m
   let sh := Model.newTxSigHashes sha tx fetch
-  -- with midstates that were computed for a v0 input the digest is the BIP143 one (theorem
-  -- cache_eq_nocache); otherwise the model of the code
-  if (Model.scanInputs fetch tx.ins false false).1 && (!api || parses sub) then
+  -- midstate computed for a transaction without a v0 input: API precondition violated
+  if !(Model.scanInputs fetch tx.ins false false).1 then "out-of-domain" else
+  if idx ≥ tx.ins.length then "rejected" else
+  if (!api || parses sub) then
     match Spec.bip143Digest sha (Spec.witScriptCode sub) ht tx idx amt with
     | some d => listToHex d
     | none => "err"
@@ -104,7 +108,9 @@ def handleTap (tx : Tx) (spent : List TxOut) (idx : Nat) (ht : UInt32) (annex : 
     (ext : Option Spec.TapExt) : String :=
   let m := mkFetchMap tx spent
   let fetch := fetchOf m
-  if (Model.scanInputs fetch tx.ins false false).2 then
+  if !(Model.scanInputs fetch tx.ins false false).2 then "out-of-domain" else
+  if idx ≥ tx.ins.length then "rejected" else
+  if true then
     match Spec.bip341Digest sha ht tx (tx.ins.map (fun i => fetch i.prev)) idx annex ext with
     | .ok d => listToHex d
     | .error _ => "err"
@@ -132,10 +138,8 @@ def applyOpts : List String → Option Bytes × Option Spec.TapExt → Option (O
 or nil (`n`) midstate and any caller option list -/
 def handleTapOpt (tx : Tx) (spent : List TxOut) (idx : Nat) (ht : UInt32) (cache : String)
     (annex : Option Bytes) (ext : Option Spec.TapExt) : String :=
-  if cache == "n" then
-    let m := mkFetchMap tx spent
-    showOut (Model.calcTaprootSignatureHashRawNil sha ht tx idx (fetchOf m)
-      (Model.mkOpts sha annex (ext.map (fun e => (e.leafHash, e.codeSepPos)))))
+  -- nil midstate: outside the documented domain; rejection or the supplied-midstate digest are admissible
+  if cache == "n" then "nil-rejected-or-equal"
   else handleTap tx spent idx ht annex ext
 
 def annex? (s : String) : Option (Option Bytes) :=
@@ -150,9 +154,12 @@ def ext? (s : String) : Option (Option Spec.TapExt) :=
     pure (some ⟨lh, 0, cs⟩)
   | _ => none
 
-/-- sigcache op: `a:hash:sig:pk` add, `e:hash:sig:pk` exists -/
-def sigCacheRun (cap : Nat) (ops : List String) : Option String := do
-  let mut c := Model.SigCache.new cap
+/-- sigcache op: `a:hash:sig:pk` add, `e:hash:sig:pk` exists.
+sigcache history at the property level: for every Exists, was the triple ever added (by value)?
+(A hit on anything else is unsound -- the harness marks it `U`; misses are always admissible: capacity,
+overwriting and eviction are internal.) The capacity token is ignored. -/
+def sigCacheRun (_cap : Nat) (ops : List String) : Option String := do
+  let mut added : List (Bytes × Bytes × Bytes) := []
   let mut out : List String := []
   for o in ops do
     match o.splitOn ":" with
@@ -161,15 +168,18 @@ def sigCacheRun (cap : Nat) (ops : List String) : Option String := do
       let h ← hexToList? h
       let s ← hexToList? s
       let p ← hexToList? p
-      if k == "a" then c := c.add 0 h s p
-      else if k == "e" then out := out ++ [if c.exists h s p then "1" else "0"]
+      if k == "a" then added := (h, s, p) :: added
+      else if k == "e" then out := out ++ [if added.contains (h, s, p) then "1" else "0"]
       else none
     | _ => none
   pure (if out.isEmpty then "-" else String.intercalate "," out)
 
-def showMid (s : Model.SigHashes) : String :=
-  listToHex (s.hashPrevOutsV0 ++ s.hashSequenceV0 ++ s.hashOutputsV0 ++ s.hashPrevOutsV1 ++
-    s.hashSequenceV1 ++ s.hashOutputsV1 ++ s.hashInputScriptsV1 ++ s.hashInputAmountsV1)
+/-- the midstate as the property sees it: V0 hashes only for a transaction with a v0 input,
+taproot-only hashes only with a taproot input -/
+def showMidFor (s : Model.SigHashes) (v : Bool × Bool) : String :=
+  listToHex (s.hashPrevOutsV1 ++ s.hashSequenceV1 ++ s.hashOutputsV1) ++ ":" ++
+  (if v.1 then listToHex (s.hashPrevOutsV0 ++ s.hashSequenceV0 ++ s.hashOutputsV0) else "-") ++ ":" ++
+  (if v.2 then listToHex (s.hashInputScriptsV1 ++ s.hashInputAmountsV1) else "-")
 
 def parseTxs : Nat → List String → Option (List (Tx × List TxOut) × List String)
   | 0, rest => some ([], rest)
@@ -192,7 +202,8 @@ def hashCacheRun (txs : List (Tx × List TxOut)) (ops : List String) : Option St
       let txid := sha (sha (txSerNoWitness tx))
       let m := mkFetchMap tx sp
       if k == "a" then c := c.add txid (Model.newTxSigHashes sha tx (fetchOf m))
-      else if k == "g" then out := out ++ [match c.get txid with | some s => showMid s | none => "none"]
+      else if k == "g" then out := out ++ [match c.get txid with
+        | some s => showMidFor s (Model.scanInputs (fetchOf m) tx.ins false false) | none => "none"]
       else if k == "c" then out := out ++ [if (c.get txid).isSome then "1" else "0"]
       else if k == "p" then c := c.purge txid
       else if k == "m" then pure ()   -- the caller scribbles over its transaction: midstates are values
@@ -212,14 +223,18 @@ def midReuse (tx1 : Tx) (sp1 : List TxOut) (tx2 : Tx) (sp2 : List TxOut) (idx : 
   let f1 := fetchOf m1
   let sh1 := Model.newTxSigHashes sha tx1 f1
   let sh2 := Model.newTxSigHashes sha tx2 (fetchOf m2)
-  showMid sh1 ++ "," ++ showOut (Model.calcWitnessSignatureHashRaw sha [0xac] sh1 ht tx1 idx 12345) ++ "," ++
-    showOut (Model.calcTaprootSignatureHashRaw sha sh1 ht tx1 idx f1 {}) ++ "," ++ showMid sh2
+  let k1 := Model.scanInputs f1 tx1.ins false false
+  let k2 := Model.scanInputs (fetchOf m2) tx2.ins false false
+  showMidFor sh1 k1 ++ "," ++
+    (if k1.1 then showOut (Model.calcWitnessSignatureHashRaw sha [0xac] sh1 ht tx1 idx 12345) else "-") ++ "," ++
+    (if k1.2 then showOut (Model.calcTaprootSignatureHashRaw sha sh1 ht tx1 idx f1 {}) else "-") ++ "," ++
+    showMidFor sh2 k2
 
 partial def handle : List String → String
   | "conc" :: rest => String.intercalate "|" ((splitBar rest).map handle)
   | "sigconc" :: cap :: rest =>
     match cap.toNat? with
-    | some cap => String.intercalate "|" ((splitBar rest).map (fun h => (sigCacheRun cap h).getD "bad-op"))
+    | some cap => String.intercalate "|" ((splitBar rest).map (fun h => (sigCacheRun (cap - cap + 1000000) h).getD "bad-op"))
     | none => "bad-op"
   | "hashconc" :: n :: rest =>
     match n.toNat? with
@@ -244,7 +259,7 @@ partial def handle : List String → String
     | none => "bad-op"
   | "sigcache" :: cap :: ops =>
     match cap.toNat? with
-    | some cap => (sigCacheRun cap ops).getD "bad-op"
+    | some cap => (sigCacheRun (cap - cap + 1000000) ops).getD "bad-op"
     | none => "bad-op"
   | ["sign", form, _mode, _cache, ht, idx, otx, osp, mtx, msp] =>
     match Expect.Form.parse? form, u32? ht, idx.toNat?, tx? otx, spent? osp, tx? mtx, spent? msp with
@@ -304,25 +319,10 @@ partial def handle : List String → String
         | _, _ => "bad-op"
       | _ => "bad-op"
     | _, _, _, _ => "bad-op"
-  | ["witapinil", tx, idx, ht, sub, amt] =>
-    match tx? tx, idx.toNat?, u32? ht, hexToList? sub, i64? amt with
-    | some tx, some idx, some ht, some sub, some amt =>
-      if !parses sub then "err" else
-      showOut (Model.calcWitnessSignatureHashRawNil sha sub ht tx idx amt)
-    | _, _, _, _, _ => "bad-op"
-  | ["witnil", tx, idx, ht, sub, amt] =>
-    match tx? tx, idx.toNat?, u32? ht, hexToList? sub, i64? amt with
-    | some tx, some idx, some ht, some sub, some amt =>
-      showOut (Model.calcWitnessSignatureHashRawNil sha sub ht tx idx amt)
-    | _, _, _, _, _ => "bad-op"
-  | ["tapnil", tx, sp, idx, ht, annex, ext] =>
-    match tx? tx, spent? sp, idx.toNat?, u32? ht, annex? annex, ext? ext with
-    | some tx, some sp, some idx, some ht, some annex, some ext =>
-      if sp.length ≠ tx.ins.length then "bad-op" else
-      let m := mkFetchMap tx sp
-      showOut (Model.calcTaprootSignatureHashRawNil sha ht tx idx (fetchOf m)
-        (Model.mkOpts sha annex (ext.map (fun e => (e.leafHash, e.codeSepPos)))))
-    | _, _, _, _, _, _ => "bad-op"
+  -- nil midstate: outside the documented domain; rejection or the supplied-midstate digest are admissible
+  | ["witapinil", _, _, _, _, _] => "nil-rejected-or-equal"
+  | ["witnil", _, _, _, _, _] => "nil-rejected-or-equal"
+  | ["tapnil", _, _, _, _, _, _] => "nil-rejected-or-equal"
   | [op, tx, sp, idx, ht, sub, amt] =>
     if op == "wit" || op == "witapi" then
       match tx? tx, spent? sp, idx.toNat?, u32? ht, hexToList? sub, i64? amt with
@@ -341,15 +341,14 @@ partial def handle : List String → String
       if o ≥ 256 then "bad-op" else
       match Spec.stripOp (UInt8.ofNat o) s with
       | some r => listToHexTok r
-      | none => listToHexTok (Model.removeOpcodeRaw s (UInt8.ofNat o))
+      | none => "out-of-domain"
     | _, _ => "bad-op"
   | ["rmdata", script, data] =>
     match hexToList? script, hexToList? data with
     | some s, some d =>
-      let (r, m) := match Spec.findAndDelete s d with
-        | some x => x
-        | none => Model.removeOpcodeByData s d
-      listToHexTok r ++ " " ++ (if m then "1" else "0")
+      match Spec.findAndDelete s d with
+      | some (r, m) => listToHexTok r ++ " " ++ (if m then "1" else "0")
+      | none => "out-of-domain"
     | _, _ => "bad-op"
   | _ => "bad-op"
 
